@@ -472,13 +472,9 @@ impl Image {
     }
 }
 
-/// Abstract contents of a user stream: short streams verbatim as "b<hex>", others by length and hash.
+/// Abstract contents of a user stream (same descriptors as the API projection uses).
 pub fn stream_data_json(b: &[u8]) -> J {
-    if b.len() <= 8 {
-        J::String(format!("b{}", b.iter().map(|x| format!("{:02x}", x)).collect::<String>()))
-    } else {
-        J::String(format!("h{}_{}", b.len(), fnv(b)))
-    }
+    J::String(crate::session::stream_desc(b))
 }
 
 // ---------------------------------------------------------------------------------------------
